@@ -241,7 +241,7 @@ def run(repo, chk):
                '@ must give Flavor.YOU and ! must give Flavor.DEFEAT', READERS, rd.lineno)
     rpaths = __import__('hidverif.efg', fromlist=['x']).enumerate_paths(rd)
     for p in rpaths:
-        conds = dict(p.conds())
+        conds = __import__('hidverif.efg', fromlist=['x']).Conds(p.events)
         flav = None
         if conds.get("scan.exact('@')") is True:
             flav = 'tokens.Flavor.YOU'
